@@ -21,7 +21,7 @@ type c17 struct{ base }
 
 func init() {
 	runner.Register(&c17{base{id: "C17", level: "exploration",
-		rule:        "seeded abstract histories of 80 operations (table management with all configurations, single-item writes with and without conditions, updates of all four action kinds, reads, Query/Scan with filters, limits and pagination keys on base tables and indexes, batch writes, failure toggles, helper calls) translated to both SDKs and executed in lock step on a fresh SDK v1 and a fresh SDK v2 client: after EVERY step the normalised outcomes must be equal (error class, returned item, item sequence, Count, LastEvaluatedKey, table description incl. per-index schema and ItemCount, UnprocessedItems). The oracle is the other adapter – no model. Plus a small enumeration of requests with missing / too short required fields. Operations only one adapter implements (BatchGetItem) are excluded. non-trivial = history has >=10 successful data operations and >=1 failing one; distinct by (op-kind sequence). Billing switches: 12 sequences (table mode x BillingMode requested by UpdateTable x index creation with / without throughput) of UpdateTable, describe, a second index creation without throughput, put and index scans, compared step by step.",
+		rule:        "seeded abstract histories of 80 operations (table management with all configurations, single-item writes with and without conditions, updates of all four action kinds, reads, Query/Scan with filters, limits and pagination keys on base tables and indexes, batch writes, failure toggles, helper calls) translated to both SDKs and executed in lock step on a fresh SDK v1 and a fresh SDK v2 client: after EVERY step the normalised outcomes must be equal (error class, returned item, item sequence, Count, LastEvaluatedKey, table description incl. per-index schema and ItemCount, UnprocessedItems). The oracle is the other adapter – no model. Plus a small enumeration of requests with missing / too short required fields. Operations only one adapter implements (BatchGetItem) are excluded. non-trivial = history has >=10 successful data operations and >=1 failing one; distinct by (op-kind sequence). Billing switches: 12 sequences (table mode x BillingMode requested by UpdateTable x index creation with / without throughput) of UpdateTable, describe, a second index creation without throughput, put and index scans, compared step by step. Two-defect batches (a missing table and a malformed key in one BatchWriteItem, 30 repetitions on fresh clients): one class, the same in both clients; table names outside [a-zA-Z0-9_.-] and of 255 / 256 characters.",
 		assumptions: []string{"oracle = the other adapter; equal outcomes can still both be wrong (C01-C16, C18-C19 decide that)", commonAssumptions[1]}}})
 }
 
